@@ -514,7 +514,7 @@ def case_to_coq(c, stats, full=True):
 
 
 HEADER = ("From Coq Require Import List ZArith String Ascii Bool Uint63.\n"
-          "From Qryn Require Import model.TqSql model.Traceql model.TraceqlPlan model.TraceqlSem model.TraceqlCase.\n"
+          "From Qryn Require Import model.TqSql model.Traceql model.TraceqlPlan model.TraceqlSem model.TraceqlCase proofs.TraceqlScope.\n"
           "Import ListNotations.\nOpen Scope string_scope.\n")
 
 
@@ -528,7 +528,8 @@ def eval_text(ck, name, cases, stats, full=lambda c: True):
     txt = (HEADER + INTERN.definitions() + "\n" + "\n".join(defs) + "\nDefinition cases : list case := " + coq_list(["c%d" % c["id"] for c in cases]) + ".\n"
            "Definition M := Eval vm_compute in mismatches cases.\nPrint M.\n"
            "Definition V := Eval vm_compute in spec_violations cases.\nPrint V.\n"
-           "Definition W := Eval vm_compute in sem_violations cases.\nPrint W.\n")
+           "Definition W := Eval vm_compute in sem_violations cases.\nPrint W.\n"
+           "Definition SC := Eval vm_compute in scope_counts cases.\nPrint SC.\n")
     rc, out = ck.coq_eval(name, txt)
     if rc != 0:
         return None, None, None, out
@@ -539,6 +540,10 @@ def eval_text(ck, name, cases, stats, full=lambda c: True):
     if not m or not v or not w:
         return None, None, None, out
     prs = lambda t: [(int(a), int(b)) for a, b in re.findall(r"\((-?\d+)(?:%Z)?, (-?\d+)(?:%Z)?\)", t)]
+    sc = re.search(r"SC = \((\d+)(?:%Z)?, (\d+)(?:%Z)?\)", flat)
+    if sc and name != "C11_text_again":
+        stats["scope_single"] = stats.get("scope_single", 0) + int(sc.group(1))
+        stats["scope_agg"] = stats.get("scope_agg", 0) + int(sc.group(2))
     ids = [int(x) for x in re.findall(r"-?\d+", v.group(1))]
     return prs(m.group(1)), ids, prs(w.group(1)), out
 
@@ -646,9 +651,9 @@ def run(ck):
         "C11: strconv.ParseFloat+FloatVal.String (FormatFloat 'f' -1), time.ParseDuration and json unquoting are modelled on a stated domain (<=15 significant digits; plain ASCII) and taken from the Go library (called by the harness) outside it",
     ]
     ck.coq_props()
-    okm, out = ck.coq_make(["model/TraceqlCase.vo"])
+    okm, out = ck.coq_make(["model/TraceqlCase.vo", "proofs/TraceqlScope.vo"])
     if not okm:
-        ck.obligation("model/TraceqlCase.v compiles", False, out[-1500:])
+        ck.obligation("model/TraceqlCase.v and proofs/TraceqlScope.v compile", False, out[-1500:])
         return
     r = run_text(ck)
     if r is None:
@@ -695,4 +700,7 @@ def run(ck):
     ck.extra["input_distribution"] = hist
     ck.extra["parse_rejected"] = len(cases) - len(parsed)
     ck.extra["raw_fragments_untranslated"] = stats.get("raw_fallback", 0)
+    # how much of the generated input space the statement-level theorems speak about (the oracle judges all of it)
+    ck.extra["inside_theorem_hypotheses"] = {"traceql_correct_single": stats.get("scope_single", 0), "traceql_correct_agg": stats.get("scope_agg", 0),
+                                             "of_cases": len(usable)}
     ck.add_samples([{"query": qtext(c), "mode": c["mode"], "sql_prefix": unhex(c["obs"][0]["sql"]).decode()[:300]} for c in usable if c.get("obs") and "sql" in c["obs"][0]][:3])
